@@ -272,6 +272,7 @@ func c08(c *Ctx) {
 		r.Check(len(es) == 0, "EFFECT", fkey(fn)+"/pure", c.Pos(fn.Pos()), "no write through the shared receiver", t.what+": "+strings.Join(ss, "; ")+" — every later caller sees them")
 	}
 	c08handlers(c)
+	c08values(c)
 	c08recheck(c)
 	c08estimateNode(c)
 }
